@@ -29,7 +29,7 @@ out.append('\n------------------------------------------------------------------
 out.append('## 7. Findings: defects exposed by failing obligations on the (then) unchanged tree\n')
 out.append('Each was first a failed obligation, then reproduced on the real code by a replay driver (`/verif/replay/*_test.go`,\n'
            'injected with `go test -overlay`), then repaired by a minimal unguarded `fix:` commit in `/repo` (the repository\'s test\n'
-           'suite passes with all of them), or — one case — recorded as a known finding. After each repair the same obligation is\n'
+           'suite passes with all of them), or — two cases, four obligations, C19 — recorded as a known finding. After each repair the same obligation is\n'
            'discharged, and the reverted fix is part of the must-fail corpus (3.8). Text below is `known_findings.txt`.\n')
 for l in open('known_findings.txt'):
     l = l.strip()
